@@ -23,9 +23,14 @@ def conditions(tier):
 
 
 def extra(tier):
-    from . import hist_probe
+    from .. import enga, runner
+    from . import hist_probe, lapack_probe
 
-    return hist_probe.run(tier)
+    res = hist_probe.run(tier)
+    # process-global NumPy state (np.seterr) must survive every differentiation, including the ones that raise inside a rule
+    enga.init()
+    res += [r for r in lapack_probe.run(runner.SEED) if "np.geterr" in r["key"]]
+    return res
 
 
 BProp("C19", conditions, extra=extra,
